@@ -41,6 +41,28 @@ ASM_PROGS = {
 }
 
 
+def big_image_source(nwords=60000):
+    """An image of more than 200000 BYTES (the memory has 200000 WORDS): a constant table whose far entries are read."""
+    lines = ["BR start", "DATA 199990", "tab"]
+    for i in range(nwords):
+        if i == 51000:
+            lines.append("far")
+        if i == nwords - 1:
+            lines.append("last")
+        lines.append(f"DATA {77 if i == 51000 else 42 if i == nwords - 1 else (i * 7919) % 100000}")
+    lines += ["start", "LDAM far", "LDBM last", "OPR ADD", "LDBM 1", "STAI 2", "LDAC 0", "OPR SVC"]
+    return "\n".join(lines) + "\n"
+
+
+def build_big(tools, wd):
+    """{name: path} of large-image binaries (used by C06 only)."""
+    p = os.path.join(wd, "asm_bigtable.S")
+    open(p, "w").write(big_image_source())
+    b = os.path.join(wd, "asm_bigtable.bin")
+    r = subprocess.run([os.path.join(tools, "hexasm"), p, "-o", b], cwd=wd, capture_output=True)
+    return {"asm_bigtable": b} if r.returncode == 0 and os.path.exists(b) else {}
+
+
 def build_binaries(tools, wd):
     """Returns {name: path}. Programs the current compiler rejects or mis-handles are still
     returned if a binary was produced; callers judge behaviour against hexsim."""
